@@ -7,6 +7,7 @@ import (
 
 	"github.com/sahandsafizadeh/qeep/component/initializers"
 	"github.com/sahandsafizadeh/qeep/component/layers"
+	"github.com/sahandsafizadeh/qeep/component/layers/activations"
 	"github.com/sahandsafizadeh/qeep/component/optimizers"
 	"github.com/sahandsafizadeh/qeep/tensor"
 
@@ -163,6 +164,12 @@ func c10Initializer(kind int) layers.Initializer {
 		sim.Bug("initializer: %v", err)
 	}
 	return in
+}
+
+func c10Acts() []act {
+	sm0, _ := activations.NewSoftmax(nil)
+	sm1, _ := activations.NewSoftmax(&activations.SoftmaxConfig{Dim: 1})
+	return []act{activations.NewRelu(), activations.NewLeakyRelu(nil), activations.NewSigmoid(), activations.NewTanh(), sm0, sm1}
 }
 
 func newRun10(sc *sim.Scenario) *run10 {
@@ -341,6 +348,21 @@ func (r *run10) execSteps(sc *sim.Scenario, check bool, final bool) {
 			r.pool.T[st.Out] = y
 			r.order = append(r.order, st.Out)
 			r.operands[st.Out] = []int{st.In[0], r.fcW, r.fcB}
+			sim.Pause()
+			h = h.U64(sim.PubFP(y))
+			sim.Resume()
+		case "act":
+			xs := []tensor.Tensor{r.pool.T[st.In[0]]}
+			y, err := c10Acts()[st.N%6].Forward(xs...)
+			r.reg(k, sim.Crossed{Tensors: [][]tensor.Tensor{xs}})
+			if err != nil || y == nil {
+				h = h.Str("error")
+				r.lastErr = true
+				break
+			}
+			r.pool.T[st.Out] = y
+			r.order = append(r.order, st.Out)
+			r.operands[st.Out] = []int{st.In[0]}
 			sim.Pause()
 			h = h.U64(sim.PubFP(y))
 			sim.Resume()
@@ -746,6 +768,11 @@ func (c10) Generate(r *sim.Rand, tier string) *sim.Scenario {
 				fails++
 				continue
 			}
+			k++
+		case x < 63:
+			// activation layers take their input as a variadic (spread) tensor list
+			id := order[len(order)-1-r.Intn(minInt(4, len(order)))]
+			add(sim.Step{Op: "act", N: r.Intn(6), In: []int{id}, Out: ids.New()})
 			k++
 		case x < 68:
 			id := order[r.Intn(len(order))]
